@@ -2,7 +2,7 @@
    Each is closed by `exact <lemma>` and followed by Print Assumptions (audited by ./check on every run). *)
 From V.lib Require Import Base.
 From V.c01 Require Import C01Codec C01Model C01LeafProofs C01Leaf2Proofs C01Leaf3Proofs C01Leaf4Proofs C01Leaf5Proofs C01TableProofs C01TreeProofs C01WhyProofs C01Witness C01Witness3
-  C01RealFiles C01RealWitness C01SizeProofs C01LocalProofs C01StableProofs C01FixProofs C01Witness4.
+  C01RealFiles C01RealWitness C01SizeProofs C01LocalProofs C01StableProofs C01FixProofs C01Witness4 C01EsdsProofs C01Witness5.
 
 (* a compact header written by EncodeHeaderSW is read back by DecodeHeaderSR *)
 Theorem C01_header_rt : forall name sz r, lenN name = 4 -> 8 <= sz < 4294967296 ->
@@ -127,6 +127,17 @@ Theorem C01_leaf_lossless_hvcC : leaf_lossless dec_hvcC. Proof. exact lossless_h
 Print Assumptions C01_leaf_lossless_hvcC.
 Theorem C01_leaf_lossless_subs : leaf_lossless dec_subs. Proof. exact lossless_subs. Qed.
 Print Assumptions C01_leaf_lossless_subs.
+(* esds with its whole descriptor tree (ES_Descriptor, DecoderConfigDescriptor with nested descriptors, DecSpecificInfo,
+   SLConfig, raw descriptors, UnknownData, size fields of any width): reproduced from the decoded tree plus the size
+   fields as read; C01_esds_core adds that a run whose size fields are in the encoder's form and that kept no
+   UnknownData (leaf_guard) captured exactly the encoder's size fields and never looked behind the bytes it consumed *)
+Theorem C01_leaf_lossless_esds : leaf_lossless dec_esds. Proof. exact lossless_esds. Qed.
+Print Assumptions C01_leaf_lossless_esds.
+Theorem C01_esds_core : forall h r l rsv r', bytes_ok r = true -> dec_esds h r = Ok ((l, rsv), r') ->
+  bytes_ok r' = true /\ leaf_name l = n_esds /\ exists b, body_leaf l rsv = Ok b /\ r = b ++ r' /\
+    (leaf_guard l = true -> rsv = dflt_rsv l /\ forall r2, dec_esds h (b ++ r2) = Ok ((l, rsv), r2)).
+Proof. exact esds_core. Qed.
+Print Assumptions C01_esds_core.
 Theorem C01_leaf_lossless_stsd : leaf_lossless dec_stsd. Proof. exact lossless_stsd. Qed.
 Print Assumptions C01_leaf_lossless_stsd.
 Theorem C01_leaf_lossless_dref : leaf_lossless dec_dref. Proof. exact lossless_dref. Qed.
@@ -274,6 +285,10 @@ Print Assumptions C01_senc_large_fixed.
 Theorem C01_elng_unterminated_refuted : refutes w_elng_unterminated [(n_elng, RSizeBig); (n_elng, RRsv false 0)].
 Proof. exact elng_unterminated_refuted. Qed.
 Print Assumptions C01_elng_unterminated_refuted.
+(* an SLConfigDescriptor announcing 0 bytes is accepted (the configuration byte is read anyway) and written back with size 1 *)
+Theorem C01_esds_slconfig_size_refuted : refutes (ex_esds 0) [(n_esds, RGuard); (n_esds, RRsv false 3)].
+Proof. exact esds_slc0_refuted. Qed.
+Print Assumptions C01_esds_slconfig_size_refuted.
 Theorem C01_stsd_nobody_fixed : decode w_stsd_nobody = Err.
 Proof. exact stsd_nobody_fixed. Qed.
 Print Assumptions C01_stsd_nobody_fixed.
@@ -291,6 +306,16 @@ Example C01_ex_stsd : exact_box (treeof ex_stsd_bytes) = true /\ why_box (treeof
   decode ex_stsd_bytes = Ok (treeof ex_stsd_bytes, []) /\ raw_box false (treeof ex_stsd_bytes) = Ok ex_stsd_bytes /\
   bytes_ok ex_stsd_bytes = true /\ lenN ex_stsd_bytes = 151.
 Proof. exact ex_stsd_ok. Qed.
+
+(* a typical AAC esds: decodes to ES{DecoderConfig{DecSpecificInfo 11 90}, SLConfig 2}, exact, reproduced *)
+Example C01_ex_esds : bytes_ok (ex_esds 1) = true /\ decode (ex_esds 1) = Ok (treeof (ex_esds 1), []) /\
+  exact_box (treeof (ex_esds 1)) = true /\ why_box (treeof (ex_esds 1)) = [] /\
+  raw_box false (treeof (ex_esds 1)) = Ok (ex_esds 1) /\
+  match treeof (ex_esds 1) with
+  | MLeaf _ (LEsds 0 0 1 1 0 _ [] _ (DDcd 1 64 21 0 128000 128000 [DDsi 1 [17; 144]] []) [DSlc 1 2 []] [] true) _ => True
+  | _ => False
+  end.
+Proof. exact ex_esds_ok. Qed.
 
 (* COMPLETE REAL FILES of /repo testdata decode inside the model, are exact, and the Go encoders' bytes are the file:
    an init segment (ftyp moov{... stsd{avc3{avcC}} ...}) and a media segment (styp sidx moof{mfhd traf{tfhd tfdt trun}} mdat) *)
